@@ -25,9 +25,102 @@ MAXLANG = 64
 
 def parse_regex(rx: str, flags: int = re.VERBOSE):
     try:
-        return sre_parse.parse(rx, flags)
+        p = sre_parse.parse(rx, flags)
     except Exception as e:
         raise AnalysisError('lexer: cannot parse regex %r: %s' % (rx, e))
+    return _expand_backrefs(p, rx)
+
+
+def _has_op(p, ops) -> bool:
+    for op, av in p:
+        if op in ops:
+            return True
+        if op is sre_c.BRANCH:
+            if any(_has_op(a, ops) for a in av[1]):
+                return True
+        elif op is sre_c.SUBPATTERN:
+            if _has_op(av[3], ops):
+                return True
+        elif op in (sre_c.MAX_REPEAT, sre_c.MIN_REPEAT) or (hasattr(sre_c, 'POSSESSIVE_REPEAT') and op is sre_c.POSSESSIVE_REPEAT):
+            if _has_op(av[2], ops):
+                return True
+        elif op in (sre_c.ASSERT, sre_c.ASSERT_NOT):
+            if _has_op(av[1], ops):
+                return True
+        elif op is sre_c.GROUPREF_EXISTS:
+            if any(x is not None and _has_op(x, ops) for x in av[1:]):
+                return True
+        elif hasattr(sre_c, 'ATOMIC_GROUP') and op is sre_c.ATOMIC_GROUP:
+            if _has_op(av, ops):
+                return True
+    return False
+
+
+def _expand_backrefs(p, rx: str):
+    """A backreference to a group that sits in the top-level sequence and matches one of a few fixed strings ((?P<q>["'])...(?P=q))
+    is the alternation over those strings, with the group and every reference to it replaced by the string.  Exact; any other
+    use of backreferences is outside the regular languages the token analyses handle."""
+    if not _has_op(p, (sre_c.GROUPREF, sre_c.GROUPREF_EXISTS)):
+        return p
+    refs = set()
+
+    def collect(q):
+        for op, av in q:
+            if op is sre_c.GROUPREF:
+                refs.add(av)
+            elif op is sre_c.GROUPREF_EXISTS:
+                refs.add(None)
+            elif op is sre_c.BRANCH:
+                for a in av[1]:
+                    collect(a)
+            elif op is sre_c.SUBPATTERN:
+                collect(av[3])
+            elif op in (sre_c.MAX_REPEAT, sre_c.MIN_REPEAT):
+                collect(av[2])
+            elif op in (sre_c.ASSERT, sre_c.ASSERT_NOT):
+                collect(av[1])
+    collect(p)
+    if None in refs:
+        raise AnalysisError('lexer: conditional group references are not modelled (%r)' % rx)
+    alts = [list(p)]
+    for g in sorted(refs):
+        nxt = []
+        for seq in alts:
+            pos = [i for i, (op, av) in enumerate(seq) if op is sre_c.SUBPATTERN and av[0] == g]
+            if len(pos) != 1:
+                raise AnalysisError('lexer: backreference to group %s, which is not a plain top-level group (%r)' % (g, rx))
+            lang = language(seq[pos[0]][1][3])
+            if lang is None or len(lang) > 8 or _has_op(seq[pos[0]][1][3], (sre_c.GROUPREF,)):
+                raise AnalysisError('lexer: backreference to group %s, which does not match a small fixed set of strings (%r)' % (g, rx))
+            for sub in sorted(lang):
+                lits = [(sre_c.LITERAL, ord(c)) for c in sub]
+
+                def subst(q, top):
+                    out = []
+                    for op, av in q:
+                        if op is sre_c.GROUPREF and av == g:
+                            out.extend(lits)
+                        elif top and op is sre_c.SUBPATTERN and av[0] == g:
+                            out.extend(lits)
+                        elif op is sre_c.BRANCH:
+                            out.append((op, (av[0], [mk(subst(a, False)) for a in av[1]])))
+                        elif op is sre_c.SUBPATTERN:
+                            out.append((op, (av[0], av[1], av[2], mk(subst(av[3], False)))))
+                        elif op in (sre_c.MAX_REPEAT, sre_c.MIN_REPEAT):
+                            out.append((op, (av[0], av[1], mk(subst(av[2], False)))))
+                        elif op in (sre_c.ASSERT, sre_c.ASSERT_NOT):
+                            out.append((op, (av[0], mk(subst(av[1], False)))))
+                        else:
+                            out.append((op, av))
+                    return out
+
+                def mk(data):
+                    return sre_parse.SubPattern(p.state, data)
+                nxt.append(subst(seq, True))
+        alts = nxt
+    if len(alts) == 1:
+        return sre_parse.SubPattern(p.state, alts[0])
+    return sre_parse.SubPattern(p.state, [(sre_c.BRANCH, (None, [sre_parse.SubPattern(p.state, a) for a in alts]))])
 
 
 def _in_chars(items) -> Optional[Set[str]]:
@@ -174,6 +267,93 @@ def _in_matches(items, c: int) -> bool:
     return hit != neg
 
 
+class RegexNotModelled(Exception):
+    pass
+
+
+def match_ends(p, s: str, i: int, k: int = 0):
+    """End positions of the matches of the parsed pattern p[k:] on s at i, in the order Python's backtracking matcher tries
+    them (alternatives left to right, greedy repeats longest first, lazy repeats shortest first): the first one is the match."""
+    items = p if isinstance(p, list) else list(p)
+    if k == len(items):
+        yield i
+        return
+    op, av = items[k]
+
+    def rest(j):
+        return match_ends(items, s, j, k + 1)
+    if op is sre_c.LITERAL:
+        if i < len(s) and ord(s[i]) == av:
+            yield from rest(i + 1)
+    elif op is sre_c.NOT_LITERAL:
+        if i < len(s) and ord(s[i]) != av:
+            yield from rest(i + 1)
+    elif op is sre_c.ANY:
+        if i < len(s) and s[i] != '\n':
+            yield from rest(i + 1)
+    elif op is sre_c.IN:
+        if i < len(s) and _in_matches(av, ord(s[i])):
+            yield from rest(i + 1)
+    elif op is sre_c.BRANCH:
+        for alt in av[1]:
+            for j in match_ends(alt, s, i):
+                yield from rest(j)
+    elif op is sre_c.SUBPATTERN:
+        for j in match_ends(av[3], s, i):
+            yield from rest(j)
+    elif op in (sre_c.MAX_REPEAT, sre_c.MIN_REPEAT):
+        lo, hi, sub = av
+        hi = len(s) + 1 if hi is sre_c.MAXREPEAT else hi
+        sub = list(sub)
+
+        def rep(j, n):
+            # positions after n repetitions so far, continuing
+            if op is sre_c.MIN_REPEAT:
+                if n >= lo:
+                    yield from rest(j)
+                if n < hi:
+                    for j2 in match_ends(sub, s, j):
+                        if j2 == j and n >= lo:
+                            continue
+                        yield from rep(j2, n + 1)
+            else:
+                if n < hi:
+                    for j2 in match_ends(sub, s, j):
+                        if j2 == j and n >= lo:
+                            continue
+                        yield from rep(j2, n + 1)
+                if n >= lo:
+                    yield from rest(j)
+        yield from rep(i, 0)
+    elif op is sre_c.AT:
+        ok = True
+        if av in (sre_c.AT_BEGINNING, sre_c.AT_BEGINNING_STRING):
+            ok = i == 0
+        elif av in (sre_c.AT_END, sre_c.AT_END_STRING):
+            ok = i == len(s) or (av is sre_c.AT_END and i == len(s) - 1 and s[i] == '\n')
+        elif av in (sre_c.AT_BOUNDARY, sre_c.AT_NON_BOUNDARY):
+            w1 = i > 0 and (s[i - 1].isalnum() or s[i - 1] == '_')
+            w2 = i < len(s) and (s[i].isalnum() or s[i] == '_')
+            ok = (w1 != w2) == (av is sre_c.AT_BOUNDARY)
+        else:
+            raise RegexNotModelled(str(av))
+        if ok:
+            yield from rest(i)
+    elif op in (sre_c.ASSERT, sre_c.ASSERT_NOT):
+        direction, sub = av
+        if direction < 0:
+            raise RegexNotModelled('look-behind')
+        hit = next(match_ends(sub, s, i), None) is not None
+        if hit == (op is sre_c.ASSERT):
+            yield from rest(i)
+    else:
+        raise RegexNotModelled(str(op))
+
+
+def match_end(p, s: str, i: int = 0) -> Optional[int]:
+    return next(match_ends(p, s, i), None)
+
+
 def first_chars_can(p, ch: str) -> bool:
     """Over-approximation: can a match of p start with ch?"""
     c = ord(ch)
@@ -292,6 +472,28 @@ class LexModel:
     F: Any = None
     const_value: Dict[str, Any] = field(default_factory=dict)   # token -> the constant its rule stores into t.value on every path
 
+    def tokenise(self, text: str) -> Optional[List[Tuple[str, str, int]]]:
+        """(rule name, matched text, position) of the matches the master regex makes on text, as PLY scans: ignored characters
+        skipped, then the first rule in master-regex order that matches.  None when some position matches no rule (or a rule
+        matches the empty string, which PLY refuses)."""
+        out = []
+        i = 0
+        while i < len(text):
+            if text[i] in self.spec.ignore:
+                i += 1
+                continue
+            for name in self.order:
+                e = match_end(self.rules[name].parsed, text, i)
+                if e is not None:
+                    if e == i:
+                        return None
+                    out.append((name, text[i:e], i))
+                    i = e
+                    break
+            else:
+                return None
+        return out
+
     def producible(self) -> Set[str]:
         out = set()
         for name, rm in self.rules.items():
@@ -313,7 +515,7 @@ def build(F: Facts, g: Optional[Grammar] = None) -> LexModel:
         p = parse_regex(r.regex)
         rm = RuleModel(r, p, language(p), can_contain(p, '\n'))
         if r.func is not None:
-            fi = FuncInfo(spec.module.name + '.t_' + r.name, spec.module, r.func)
+            fi = FuncInfo(spec.module.name + '.t_' + r.name, spec.module, r.func, captured=r.closure)
             rm.paths = SymExec(F, fi).run()
             tparam = ('param', r.func.args.args[0].arg) if r.func.args.args else None
             rets = []
